@@ -113,6 +113,11 @@ def gen_case(rng, drop_rate=0.2):
         S["strict"] = "filter"
     if rng.random() < drop_rate:
         S["dropInvalid"] = True
+    # joint uniqueness over columns that survive parsing (an empty subset makes pandas raise inside
+    # `duplicated`, which is C06's finding, not this property's subject)
+    declared = {s["name"] for s in S["columns"] if s["regex"] is None}
+    present = {col["name"] for col in D["cols"]}
+    S["unique"] = [x for x in S["unique"] if x in declared and x in present]
     return c
 
 
